@@ -10,7 +10,7 @@ import sys
 
 from .core import VERIF
 
-ALL = ["C05"]
+ALL = ["C05", "C11", "C10"]
 
 
 def digests(pid: str, seed: int, n: int, slots: int, hashseed: str) -> list:
